@@ -21,9 +21,12 @@ import (
 	"math"
 	"os"
 	"reflect"
+	"sync"
 	"time"
 
+	"github.com/hydraide/hydraide/app/core/hydra"
 	"github.com/hydraide/hydraide/app/core/hydra/swamp/treasure"
+	"github.com/hydraide/hydraide/app/verifhook"
 	hydrapb "github.com/hydraide/hydraide/sdk/go/hydraidego/v3/hydraidepbgo"
 	"google.golang.org/protobuf/types/known/timestamppb"
 	"verif/harness/common"
@@ -641,6 +644,9 @@ type plan struct {
 	t0        int64
 	opNo      int
 	restarted bool // second case starts from the snapshot after the first reload
+	types     []int
+	win       int  // 0 = none; 1..3 = segment 1 runs while the background flush is parked at winSites[win-1]
+	winHit    bool // the flush really was parked while segment 1 ran
 	terms1    []string
 }
 
@@ -699,6 +705,10 @@ func genPlan(rng *common.Rng, idx int, tier string) *plan {
 		}
 		return hop{Kind: "delpair", K: k, By: int64((k + 1 + rng.Intn(nKeys-1)) % nKeys)} // two keys in one Delete
 	}
+	p.types = types
+	if !p.idle && idx%3 == 1 {
+		p.win = 1 + (idx/3)%3
+	}
 	written := []int{}
 	for sg := 0; sg < 3; sg++ {
 		items := rng.Intn(4)
@@ -715,8 +725,15 @@ func genPlan(rng *common.Rng, idx int, tier string) *plan {
 				k = written[rng.Intn(len(written))]
 			}
 			touched = append(touched, k)
+			// "meta": a Set that repeats the key's current value and names exactly one (or two) of
+			// CreatedAt / CreatedBy / UpdatedAt / UpdatedBy / ExpiredAt - each metadata field on its own
+			metaOnly := func() hop { return hop{Kind: "meta", K: k, Meta: []int{1, 2, 4, 8, 16, 2 | 8, 1 | 4}[rng.Intn(7)]} }
 			var seq []hop
-			switch x := rng.Intn(100); {
+			switch x := rng.Intn(118); {
+			case x >= 100 && x < 112:
+				seq = []hop{metaOnly()}
+			case x >= 112:
+				seq = []hop{update(k), metaOnly()}
 			case x < 30:
 				seq = []hop{update(k)}
 			case x < 38:
@@ -744,6 +761,27 @@ func genPlan(rng *common.Rng, idx int, tier string) *plan {
 			if rng.Chance(8) {
 				p.segs[sg] = append(p.segs[sg], hop{Kind: "compact", K: k}) // CompactSwamp: rewrites the file from the live index
 			}
+		}
+		if sg == 1 && p.win > 0 {
+			// inside a flush window: no CompactSwamp (it needs the chronicler the parked flush holds),
+			// and no re-create of a key removed inside the same window (deleting and re-creating a
+			// key of an unwritten batch is C16's open finding recreate_in_flush_window_old_object_written_last)
+			removed := map[int]bool{}
+			var kept []hop
+			for _, o := range p.segs[sg] {
+				rm := o.Kind == "delete" || o.Kind == "shift" || o.Kind == "deldup" || o.Kind == "delpair"
+				if o.Kind == "compact" || (!rm && removed[o.K]) {
+					continue
+				}
+				if rm {
+					removed[o.K] = true
+					if o.Kind == "delpair" {
+						removed[int(o.By)] = true
+					}
+				}
+				kept = append(kept, o)
+			}
+			p.segs[sg] = kept
 		}
 		written = append(written, touched...)
 		p.ops = append(p.ops, p.segs[sg]...)
@@ -834,6 +872,33 @@ func doOp(a *c30.API, p *plan, o hop) error {
 			kv.UpdatedBy = &by
 		}
 		_, err = a.Set(p.swamp, kv)
+	case "meta":
+		ts, gerr := a.Get(p.swamp, []string{key})
+		if gerr != nil {
+			return gerr
+		}
+		cur := viewOf(a, p.swamp, ts[0])
+		if !cur.Exist || cur.V.T == 14 {
+			return nil // nothing to re-set (a uint32 set has no Set form)
+		}
+		kv := kvOf(key, cur.V)
+		who := fmt.Sprintf("u%d", i)
+		if o.Meta&1 != 0 {
+			kv.CreatedAt = c30.TSNanos(t0 - int64(i+7)*1e9)
+		}
+		if o.Meta&2 != 0 {
+			kv.CreatedBy = &who
+		}
+		if o.Meta&4 != 0 {
+			kv.UpdatedAt = c30.TSNanos(t0 + int64(i+7))
+		}
+		if o.Meta&8 != 0 {
+			kv.UpdatedBy = &who
+		}
+		if o.Meta&16 != 0 {
+			kv.ExpiredAt = c30.TSNanos(t0 + 7200e9 + int64(i))
+		}
+		_, err = a.Set(p.swamp, kv)
 	case "inc":
 		var m *hydrapb.IncrementRequestMetadata
 		if o.Meta == 1 {
@@ -918,6 +983,86 @@ func runSeg(a *c30.API, p *plan, sg int) {
 	}
 }
 
+// ---- operations that arrive while a flush of the background writer is in progress ---------------
+//
+// The writer runs concurrently with the client also in single-client use, so "a history followed
+// by close" includes operations that land inside a flush. The hook points of swamp.go
+// (fileWriterHandler) and chronicler_v2.go (Write) let the harness hold the flush of one swamp at
+// one of three places - before it collects its batch, after it took the batch off the buffer but
+// before it is encoded, after it was written - run the segment, and let the flush go on.
+var winSites = []string{"swamp.flush.begin", "chronicler.write.begin", "swamp.flush.wrote"}
+
+type winCtl struct {
+	mu       sync.Mutex
+	site     map[int64]string        // swamp id -> site to park at (one shot)
+	release  map[int64]chan struct{} // swamp id -> closed to let the flush continue
+	parked   map[int64]bool
+	gidSwamp map[int64]int64 // flush goroutine -> swamp id (chronicler.write.begin carries no id)
+}
+
+func newWinCtl() *winCtl {
+	return &winCtl{site: map[int64]string{}, release: map[int64]chan struct{}{}, parked: map[int64]bool{}, gidSwamp: map[int64]int64{}}
+}
+
+func (w *winCtl) hook(site string, gid int64, args []int64) {
+	var id int64
+	switch site {
+	case "swamp.flush.begin":
+		if len(args) == 0 {
+			return
+		}
+		id = args[0]
+		w.mu.Lock()
+		w.gidSwamp[gid] = id
+		w.mu.Unlock()
+	case "chronicler.write.begin":
+		w.mu.Lock()
+		id = w.gidSwamp[gid]
+		w.mu.Unlock()
+	case "swamp.flush.wrote":
+		if len(args) == 0 {
+			return
+		}
+		id = args[0]
+	default:
+		return
+	}
+	w.mu.Lock()
+	if id == 0 || w.site[id] != site {
+		w.mu.Unlock()
+		return
+	}
+	delete(w.site, id)
+	ch := w.release[id]
+	w.parked[id] = true
+	w.mu.Unlock()
+	<-ch
+}
+
+func (w *winCtl) arm(id int64, site string) {
+	w.mu.Lock()
+	w.site[id] = site
+	w.release[id] = make(chan struct{})
+	w.parked[id] = false
+	w.mu.Unlock()
+}
+func (w *winCtl) isParked(id int64) bool {
+	w.mu.Lock()
+	defer w.mu.Unlock()
+	return w.parked[id]
+}
+func (w *winCtl) letGo(id int64) {
+	w.mu.Lock()
+	delete(w.site, id)
+	if ch, ok := w.release[id]; ok {
+		close(ch)
+		delete(w.release, id)
+	}
+	w.mu.Unlock()
+}
+
+var wctl = newWinCtl()
+
 // phase 0: sentinel + segment 0 (then the writer ticks)
 func phase0(a *c30.API, p *plan) {
 	p.t0 = time.Now().UnixNano()
@@ -935,7 +1080,42 @@ func phase1(a *c30.API, p *plan) {
 	if p.err == nil {
 		p.opTerms = append(p.opTerms, "OTick") // the harness waited longer than the write interval
 	}
-	runSeg(a, p, 1)
+	ranSeg1 := false
+	if p.err == nil && p.win > 0 {
+		if obj := hydra.VerifMapEntry(a.S.Zeus.GetHydra(), rig.Name(p.swamp).Get()); obj != nil {
+			id := verifhook.ID(obj)
+			wctl.arm(id, winSites[p.win-1])
+			defer wctl.letGo(id)
+			// something for the next tick to flush: a write that always counts as a modification
+			k := 0
+			if len(p.segs[1]) > 0 {
+				k = p.segs[1][0].K
+			}
+			var first hop
+			if k == nKeys-1 {
+				first = hop{Kind: "push", K: k, V: val{T: 14, L: []uint32{uint32(1000 + p.idx)}}}
+			} else {
+				first = hop{Kind: "set", K: k, V: valuesOf(p.types[k])[len(valuesOf(p.types[k]))-1], Meta: 3}
+			}
+			if err := doOp(a, p, first); err != nil {
+				p.err = err
+				return
+			}
+			for dl := time.Now().Add(2500 * time.Millisecond); time.Now().Before(dl) && !wctl.isParked(id); {
+				time.Sleep(5 * time.Millisecond)
+			}
+			p.winHit = wctl.isParked(id)
+			if p.winHit {
+				p.opTerms = append(p.opTerms, common.App("OWin", common.N(uint64(p.win))))
+			}
+			runSeg(a, p, 1)
+			wctl.letGo(id)
+			ranSeg1 = true
+		}
+	}
+	if !ranSeg1 {
+		runSeg(a, p, 1)
+	}
 	if p.err != nil {
 		return
 	}
@@ -1076,9 +1256,12 @@ func main() {
 	s := rig.Start(root, true)
 	register(s)
 	a := c30.New(s)
+	verifhook.Install(wctl.hook)
+	defer verifhook.Install(nil)
 	common.Parallel(n, 16, func(i int) { phase0(a, plans[i]) })
 	time.Sleep(2200 * time.Millisecond) // the 1 s writer tick flushes segment 0; the 1 s idle-close pattern evicts its swamps
 	common.Parallel(n, 16, func(i int) { phase1(a, plans[i]) })
+	verifhook.Install(nil)
 	a.Close()
 	s = s.Restart()
 	register(s)
@@ -1132,6 +1315,13 @@ func main() {
 		}
 		if p.idle {
 			run.Hist("idle_close_pattern")
+		}
+		if p.win > 0 {
+			if p.winHit {
+				run.Hist("segment1_inside_flush_parked_at:" + winSites[p.win-1])
+			} else {
+				run.Hist("flush_window_not_reached")
+			}
 		}
 	}
 	_ = timestamppb.Now
